@@ -89,6 +89,29 @@ theorem pupil_sets_focal_length (phOf : M → R → K) (p : PlaneM K R) (ppx : O
     simp only [Except.map, Except.ok.injEq, Gen.pupilMultiplyHandover, Wf.ofHandover, Wf.handover] at h; subst h
     exact ⟨rfl, (plane_keeps_wavelength phOf p ppx w w2 hp).1, w2, rfl, rfl, rfl, rfl⟩
 
+/-- **`Image.multiply` changes only the plane type** (about the *generated* `Gen.imageMultiplyHandover`, read off the
+source on every run): wavelength, focal length, pixel scale and shape of `Plane.multiply`'s result pass through, the
+plane type becomes the given value (`lentil.image`) — for every record and every type of plane-type values -/
+theorem image_multiply_handover {M P S T : Type} (h : Gen.WfHandover M P S T) (img : T) :
+    (Gen.imageMultiplyHandover h img).wavelength = h.wavelength ∧ (Gen.imageMultiplyHandover h img).focal_length = h.focal_length ∧
+    (Gen.imageMultiplyHandover h img).pixelscale = h.pixelscale ∧ (Gen.imageMultiplyHandover h img).shape = h.shape ∧
+    (Gen.imageMultiplyHandover h img).ptype = img := ⟨rfl, rfl, rfl, rfl, rfl⟩
+
+/-- hence an image plane acts on the modelled state exactly like `Plane.multiply` -/
+theorem image_multiply_eq_plane (phOf : M → R → K) (p : PlaneM K R) (ppx : Option (Int × Int)) (w : Wf K M) :
+    imageMultiplyW phOf p ppx w = planeMultiplyW phOf p ppx w := by
+  unfold imageMultiplyW
+  cases planeMultiplyW phOf p ppx w with
+  | error e => rfl
+  | ok w' => rfl
+
+/-- the plane with default attributes and no pixel scale leaves wavelength, focal length, pixel scale and shape alone -/
+theorem default_plane_keeps_metadata [One K] (phOf : M → R → K) (o : R) (w : Wf K M) :
+    ∃ w', planeMultiplyW phOf ⟨.scalar 1, .scalar o, .scalar true⟩ none w = .ok w' ∧ w'.wavelength = w.wavelength ∧
+      w'.focal = w.focal ∧ w'.pixelscale = w.pixelscale ∧ w'.shape = w.shape := by
+  rw [plane_multiply_handover, pixelscale_refusal]
+  exact ⟨_, rfl, rfl, rfl, rfl, rfl⟩
+
 /-- the multiplication is refused exactly when `_mul_pixelscale` refuses -/
 theorem plane_refuses_iff (phOf : M → R → K) (p : PlaneM K R) (ppx : Option (Int × Int)) (w : Wf K M) :
     (∃ e, planeMultiplyW phOf p ppx w = .error e) ↔ ∃ x y, ppx = some x ∧ w.pixelscale = some y ∧ x ≠ y := by
@@ -269,6 +292,32 @@ theorem plane_multiply_exp (wavelength : ℝ) (amp : Attr ℂ) (opd : Attr ℝ) 
               Complex.exp (2 * Real.pi * Complex.I * (((opd.at (r + S0 / 2) (c + S1 / 2) : ℝ) : ℂ) / (wavelength : ℂ)))
          else 0) := by
   rw [plane_multiply_monolithic (planePh wavelength) amp opd S0 S1 g hc hbig data hd r c, planePh_eq_exp]
+
+/-- the same for any number of segments (scalar or array amplitude / OPD): every segment contributes
+`amplitude · exp(+2πi·OPD/λ)` on its mask and `0` elsewhere -/
+theorem plane_multiply_exp_segments (wavelength : ℝ) (amp : Attr ℂ) (opd : Attr ℝ) (S0 S1 : Int) (l : List Seg)
+    (hc : ∀ g ∈ l, g.covers S0 S1)
+    (hbig : ∀ g ∈ l, g.s.r0 < g.s.r1 ∧ g.s.c0 < g.s.c1 ∧ ¬ (g.s.r1 - g.s.r0 = 1 ∧ g.s.c1 - g.s.c0 = 1))
+    (data : List (Fld ℂ)) (hd : ∀ f ∈ data, 0 < f.arr.s0 ∧ 0 < f.arr.s1) (r c : Int) :
+    sumList (planeMultiply (planePh wavelength) ⟨amp, opd, .segs S0 S1 l⟩ data) (fun g => g.emb r c)
+      = sumList data (fun f => f.sem r c) *
+        sumList l (fun g => segFactor (fun o : ℝ => Complex.exp (2 * Real.pi * Complex.I * ((o : ℂ) / (wavelength : ℂ))))
+          amp opd S0 S1 g.m r c) := by
+  rw [plane_multiply_pointwise (planePh wavelength) amp opd S0 S1 l hc hbig data hd r c]
+  have : (planePh wavelength : ℝ → ℂ) = fun o : ℝ => Complex.exp (2 * Real.pi * Complex.I * ((o : ℂ) / (wavelength : ℂ))) := by
+    funext o; exact planePh_eq_exp wavelength o
+  rw [this]
+
+/-- and for a scalar (0-d) mask: the single phasor is `amplitude · mask · exp(+2πi·OPD/λ)` on the grid of the array attribute -/
+theorem scalar_mask_phasor_exp (wavelength : ℝ) (amp : Attr ℂ) (opd : Attr ℝ) (on : Bool) (r c : Int)
+    (hsh : attrShape amp opd ≠ (1, 1))
+    (hin : 0 ≤ r + (attrShape amp opd).1 / 2 ∧ r + (attrShape amp opd).1 / 2 < (attrShape amp opd).1 ∧
+           0 ≤ c + (attrShape amp opd).2 / 2 ∧ c + (attrShape amp opd).2 / 2 < (attrShape amp opd).2) :
+    (scalarPhasor (planePh wavelength) amp opd on).sem r c
+      = maskMul on (amp.at (r + (attrShape amp opd).1 / 2) (c + (attrShape amp opd).2 / 2)) *
+        Complex.exp (2 * Real.pi * Complex.I *
+          (((opd.at (r + (attrShape amp opd).1 / 2) (c + (attrShape amp opd).2 / 2) : ℝ) : ℂ) / (wavelength : ℂ))) := by
+  rw [(scalar_mask_phasor (planePh wavelength) amp opd on r c).2, if_neg hsh, if_pos hin, planePh_eq_exp]
 
 /-- **scale covariance of the phase factor**: OPD and wavelength enter only through their ratio — multiplying both by any
 `k ≠ 0` (a change of the unit of length) leaves the factor unchanged. So an OPD of 5 nm at λ = 500 nm acts exactly like
@@ -482,6 +531,15 @@ theorem intensity_eq_normSq_field (nsq : K → K) (h0 : nsq 0 = 0) (S0 S1 : Int)
   intro i j hi hj
   rw [hget i j hi hj, field_eq_sum S0 S1 data i j hi hj]
   simp [zerosArr]
+
+/-- **the intensity is the complex squared modulus**: the views theorem at `K = ℂ` with `nsq z = |z|²` (`Complex.normSq`):
+`Wavefront.intensity` at a sample is `|Σ fields|²` -/
+theorem intensity_is_complex_normSq (S0 S1 : Int) (data : List (Fld ℂ)) (hpos : ∀ f ∈ data, 0 < f.arr.s0 ∧ 0 < f.arr.s1)
+    (I : Arr ℂ) (h : wfIntensity 1 (fun z => (Complex.normSq z : ℂ)) S0 S1 data = some I)
+    (i j : Int) (hi : 0 ≤ i ∧ i < S0) (hj : 0 ≤ j ∧ j < S1) :
+    I.get i j = (Complex.normSq (sumList data (fun f => f.emb (i - S0 / 2) (j - S1 / 2))) : ℂ) := by
+  obtain ⟨_, _, hget⟩ := intensity_eq_normSq_field (fun z => (Complex.normSq z : ℂ)) (by simp) S0 S1 data hpos I h
+  rw [hget i j hi hj, field_eq_sum S0 S1 data i j hi hj]
 
 end views
 
